@@ -3,9 +3,9 @@ import os, re, random
 import apigen, vlib, gen_tmpskel
 from genlib import *
 LEVEL = "proof"
-LEAN_MODULES = ["MpirProofs.Props.C04", "MpirProofs.Props.C04_tmp"]
+LEAN_MODULES = ["MpirProofs.Props.C04", "MpirProofs.Props.C04_tmp", "MpirProofs.Props.C04_tmpsound"]
 GEN = [gen_tmpskel.gen_tmpskel]
-THEOREMS = ["Mpir.Life.inv_init", "Mpir.Life.inv_step", "Mpir.Life.inv_run", "Mpir.Life.no_breach", "Mpir.Life.clearAll_empties_ledger", "Mpir.Life.realloc2_value", "Mpir.Life.set_value", "Mpir.TmpSkel.tmp_balanced"]
+THEOREMS = ["Mpir.Life.inv_init", "Mpir.Life.inv_step", "Mpir.Life.inv_run", "Mpir.Life.no_breach", "Mpir.Life.clearAll_empties_ledger", "Mpir.Life.realloc2_value", "Mpir.Life.set_value", "Mpir.TmpSkel.tmp_balanced", "Mpir.TmpSkel.balanced_sound", "Mpir.TmpSkel.tmp_paths_safe"]
 TRUSTED = ["tools/gen_tmpskel.py: clang-14 AST of every function using TMP_DECL with the TMP_* macros re-pointed at marker calls; control-flow skeleton construction (if/loops/switch/goto/return/noreturn calls)",
            "run-time monitors on the C side: recording allocator (exact old size on realloc/free, red zones, leak ledger), well-formedness check of every pool object after every call, ASan+UBSan build",
            "life-cycle/ledger model lean/Mpir/Model/Life.lean mirrors mpz/init.c, init2.c, realloc.c, realloc2.c, set.c, clear.c (tied by correspondence on value and _mp_alloc)"]
